@@ -27,7 +27,9 @@ theorem own_ptr_input_unchanged (s : GSchema) (σ : GStore) (p : Loc) (n : Nat) 
     · simp only [Bool.false_eq_true, ↓reduceIte]
       split
       · exact e
-      · exact e.trans (galloc_ext _ _ _ e.1)
+      · split
+        · exact e
+        · exact e.trans (galloc_ext _ _ _ e.1)
   · exact GExt.refl _ _
 
 /-- **own_ptr_same_pointer**: the validated value is the pointee itself → the caller's pointer is the answer. -/
@@ -38,15 +40,27 @@ theorem own_ptr_same_pointer (s : GSchema) (σ : GStore) (p : Loc) (v w : GVal) 
   rw [hp]
   simp only [hw, hsame, Bool.false_eq_true, ↓reduceIte]
 
-/-- **own_ptr_own_pointer**: the schema built a new value → a pointer allocated by this call, holding that value. -/
+/-- **own_ptr_own_pointer**: the schema built a new value that is not a map with exactly the pointee's entries → a pointer
+    allocated by this call, holding that value. -/
 theorem own_ptr_own_pointer (s : GSchema) (σ : GStore) (p : Loc) (v w : GVal) (hp : readG σ.heap p = [(0, v)])
-    (hw : (parseS s σ v).2 = some w) (hdiff : sameV gdepth w v = false) :
+    (hw : (parseS s σ v).2 = some w) (hdiff : sameV gdepth w v = false)
+    (hent : sameEntriesV (parseS s σ v).1.heap w v = false) :
     (parsePtrS false s σ p).2 = some (.ref (parseS s σ v).1.next) ∧
     readG (parsePtrS false s σ p).1.heap (parseS s σ v).1.next = [(0, w)] := by
   unfold parsePtrS
   rw [hp]
-  simp only [hw, hdiff, Bool.false_eq_true, ↓reduceIte]
+  simp only [hw, hdiff, hent, Bool.false_eq_true, ↓reduceIte]
   exact ⟨rfl, by simp [galloc, readG, gupd]⟩
+
+/-- **own_ptr_same_entries** (/repo 3302475): the schema built a new map holding exactly the pointee's entries → the caller's
+    own pointer. -/
+theorem own_ptr_same_entries (s : GSchema) (σ : GStore) (p : Loc) (v w : GVal) (hp : readG σ.heap p = [(0, v)])
+    (hw : (parseS s σ v).2 = some w) (hent : sameEntriesV (parseS s σ v).1.heap w v = true) :
+    (parsePtrS false s σ p).2 = some (.ref p) := by
+  unfold parsePtrS
+  rw [hp]
+  simp only [hw, hent, Bool.false_eq_true, ↓reduceIte]
+  split <;> rfl
 
 /-- cell 1 = the caller's map `{9: 7, 10: 7}` (key 10 unknown to the schema), cell 2 = the caller's variable holding it -/
 def σp : GStore :=
@@ -73,12 +87,14 @@ example :
     ptrP_input_unchanged       value-typed, optional, nilable or pointer-typed, any schema of the language, accepted or refused:
                                Parse(&v) only allocates — the caller's variable, the pointee's graph, every schema cell hold
                                what they held ("input value graph unchanged", the pointer half)
-    ptr_same_pointer_full      the clause as the reading states it: pointer-typed / optional / nilable, accepted, documented
-                               answer looks like the pointee (`wantSame = some true`, written without the model) → the SAME pointer
-    ptr_same_pointer_obj_witness   … false for the code as it is: an Object builds a new map even when nothing is stripped
-                               (`ObjectPtr({a}).Parse(&{a:x})` answers with a pointer of its own) — open: ptr:parse:different-pointer:ZodObject
-    ptr_same_pointer_partial   … true for every schema whose root is not an object (explicit decidable exclusion `rootObj`)
-    ptrP_obj_own_pointer       root object: the answer is a pointer allocated by the call (never the caller's)
+    ptr_same_pointer_full      THEOREM (code as it is, /repo 3302475): pointer-typed / optional / nilable, ANY root, accepted,
+                               documented answer looks like the pointee (`wantSame = some true`, written without the model) →
+                               the SAME pointer. Non-object roots hand back the value they were given (`ptr_same_pointer_nonobj`,
+                               `parse_keeps`, `sameValue`); an object's new map holds exactly the caller's entries
+                               (`obj_same_entries`, `fold_obj_all`, `sameEntries`)
+    legacy_objptr_own_pointer  witness for the code before 3302475 (`parsePtrS0`): `ObjectPtr({a}).Parse(&{a:x})` answered with a
+                               pointer of its own (was open: ptr:parse:different-pointer:ZodObject)
+    obj_builds_new             an object's answer is a map allocated by the call
     ptr_clauses_exclusive      why `wantSame = some false` demands a pointer of its own: a store that left the input graph
                                unchanged shows, through the caller's pointer, what it showed before — so the same pointer can
                                never carry an answer that looks different from the pointee
@@ -177,15 +193,8 @@ theorem sameV_flat (v : GVal) (hf : ∀ fs, v ≠ .agg fs) : sameV gdepth v v = 
   | ref l => simp [gdepth, sameV]
   | agg fs => exact absurd rfl (hf fs)
 
-/-- **The clause, full strength** (reading of notes/C15.md): pointer-typed / optional / nilable schema, accepted, the documented
-    answer looks like what the pointer refers to → the caller's own pointer comes back. -/
-def ptr_same_pointer_full : Prop :=
-  ∀ (ps : PSchema) (σ : GStore) (p : Loc) (v : GVal),
-    readG σ.heap p = [(0, v)] → (∀ fs, v ≠ .agg fs) → (parsePtrP ps σ p).2.isSome = true →
-    wantSame ps σ p = some true → (parsePtrP ps σ p).2 = some (.ref p)
-
-/-- **ptr_same_pointer_partial**: the clause holds for every schema whose root is not an object. -/
-theorem ptr_same_pointer_partial (ps : PSchema) (hno : rootObj ps.s = false) (σ : GStore) (p : Loc) (v : GVal)
+/-- the clause for every root that is not an object (they hand back the value they were given) -/
+theorem ptr_same_pointer_nonobj (ps : PSchema) (hno : rootObj ps.s = false) (σ : GStore) (p : Loc) (v : GVal)
     (hp : readG σ.heap p = [(0, v)]) (hf : ∀ fs, v ≠ .agg fs) (hacc : (parsePtrP ps σ p).2.isSome = true)
     (hw : wantSame ps σ p = some true) : (parsePtrP ps σ p).2 = some (.ref p) := by
   have hk : ps.kind.ptrTyped = true := by
@@ -210,31 +219,229 @@ theorem ptr_same_pointer_partial (ps : PSchema) (hno : rootObj ps.s = false) (σ
     simp only [ht] at hacc
     cases hacc
 
+/-! #### objects: the newly built map holds exactly the caller's entries when nothing is stripped (/repo 3302475) -/
+
+/-- an object pass in which no key is dropped (strip mode: every key is a field of the shape) hands out the entries it was given -/
+theorem fold_obj_all (mode : ObjMode) (fields : List Nat) (pk : Nat → GStore → GVal → GStore × Option GVal) :
+    ∀ (es : Entries) (σ : GStore) (out : Entries), (∀ p ∈ es, mode = .strip → fields.contains p.1 = true) →
+    (foldEntries (objStep mode fields pk) es σ).2 = some out → out = es := by
+  intro es
+  induction es with
+  | nil => intro σ out _ h; simp only [foldEntries, Option.some.injEq] at h; exact h.symm
+  | cons p ps ih =>
+    intro σ out hk h
+    unfold foldEntries at h
+    split at h
+    · cases h
+    · next e hstep =>
+      simp only at h
+      cases hrest : (foldEntries (objStep mode fields pk) ps (objStep mode fields pk σ p).1).2 with
+      | none => rw [hrest] at h; cases h
+      | some out' =>
+        rw [hrest] at h
+        simp only [Option.some.injEq] at h
+        have hout' := ih _ out' (fun q hq => hk q (List.mem_cons_of_mem _ hq)) hrest
+        have he : e = some p := by
+          unfold objStep at hstep
+          split at hstep
+          · simp only at hstep
+            cases hpk : (pk p.1 σ p.2).2 with
+            | none => rw [hpk] at hstep; cases hstep
+            | some r => rw [hpk] at hstep; simp only [Option.map_some, Option.some.injEq] at hstep; exact hstep.symm
+          · next hc =>
+            unfold unknownStep at hstep
+            cases mode with
+            | strip => exact absurd (hk p (List.mem_cons_self ..) rfl) hc
+            | loose => simp only [Option.some.injEq] at hstep; exact hstep.symm
+            | strict => cases hstep
+        subst he
+        subst hout'
+        exact h.symm
+
+/-- in a cell with distinct keys, looking an entry up by its key finds that entry -/
+theorem find_self : ∀ (es : Entries), (es.map (·.1)).Nodup → ∀ p ∈ es, es.find? (fun q => q.1 == p.1) = some p := by
+  intro es
+  induction es with
+  | nil => intro _ p hp; cases hp
+  | cons a es ih =>
+    intro hnd p hp
+    simp only [List.map_cons, List.nodup_cons] at hnd
+    by_cases hap : a.1 = p.1
+    · have : p = a := by
+        rcases List.mem_cons.mp hp with h1 | h1
+        · exact h1
+        · exfalso
+          apply hnd.1
+          rw [hap]
+          exact List.mem_map.mpr ⟨p, h1, rfl⟩
+      subst this
+      simp [List.find?]
+    · have hp' : p ∈ es := by
+        rcases List.mem_cons.mp hp with h1 | h1
+        · subst h1; exact absurd rfl hap
+        · exact h1
+      have hne : (a.1 == p.1) = false := by simp [hap]
+      simp only [List.find?_cons, hne]
+      exact ih hnd.2 p hp'
+
+/-- the pointee is a well-formed Go value: no bare aggregate; a map / slice is allocated, has distinct keys, and its entries
+    hold scalars, nils or references (any-typed containers, what the class `optr` builds) -/
+def PointeeOK (σ : GStore) (v : GVal) : Prop :=
+  (∀ fs, v ≠ .agg fs) ∧
+  ∀ l, v = .ref l → l < σ.next ∧ ((readG σ.heap l).map (·.1)).Nodup ∧ ∀ q ∈ readG σ.heap l, ∀ fs, q.2 ≠ .agg fs
+
+/-- an object that drops no key of the caller's map answers a new map that `sameEntries` recognises -/
+theorem obj_same_entries (mode : ObjMode) (fields : List Nat) (kids : Nat → GSchema) (σ : GStore) (l : Loc) (w : GVal) (n : Nat)
+    (hn : n ≤ σ.next) (ho : OwnedS n σ.heap (.obj mode fields kids)) (hv : PointeeOK σ (.ref l))
+    (hk : ∀ p ∈ readG σ.heap l, mode = .strip → fields.contains p.1 = true)
+    (h : (parseS (.obj mode fields kids) σ (.ref l)).2 = some w) :
+    sameEntriesV (parseS (.obj mode fields kids) σ (.ref l)).1.heap w (.ref l) = true := by
+  obtain ⟨hl, hnd, hflat⟩ := hv.2 l rfl
+  have hext := own_parse_ext (.obj mode fields kids) σ (.ref l) n hn ho
+  by_cases hcond : (isMapCell (readG σ.heap l) && fields.all (fun k => (readG σ.heap l).any (fun p => p.1 == k))) = true
+  · have e : parseS (.obj mode fields kids) σ (.ref l) =
+        finish (foldEntries (objStep mode fields (fun k => parseS (kids k))) (readG σ.heap l) σ) := by
+      unfold parseS
+      simp only [hcond, ↓reduceIte]
+    rw [e] at h hext ⊢
+    cases hR : (foldEntries (objStep mode fields (fun k => parseS (kids k))) (readG σ.heap l) σ).2 with
+    | none => simp only [finish, hR] at h; cases h
+    | some out =>
+      have hout := fold_obj_all mode fields (fun k => parseS (kids k)) (readG σ.heap l) σ out hk hR
+      subst hout
+      simp only [finish, hR, Option.some.injEq] at h hext ⊢
+      subst h
+      have hmap : isMapCell (readG σ.heap l) = true := by
+        simp only [Bool.and_eq_true] at hcond
+        exact hcond.1
+      have hnew : readG (galloc (foldEntries (objStep mode fields (fun k => parseS (kids k))) (readG σ.heap l) σ).1 (readG σ.heap l)).1.heap
+          (galloc (foldEntries (objStep mode fields (fun k => parseS (kids k))) (readG σ.heap l) σ).1 (readG σ.heap l)).2 = readG σ.heap l := by
+        simp [galloc, readG, gupd]
+      have hold : readG (galloc (foldEntries (objStep mode fields (fun k => parseS (kids k))) (readG σ.heap l) σ).1 (readG σ.heap l)).1.heap l
+          = readG σ.heap l := readG_congr l (hext.2 l hl)
+      simp only [sameEntriesV]
+      rw [hnew, hold]
+      simp only [hmap, Bool.true_and, beq_self_eq_true, List.all_eq_true]
+      intro q hq
+      rw [find_self _ hnd q hq]
+      exact sameV_flat q.2 (hflat q hq)
+  · exfalso
+    have e : parseS (.obj mode fields kids) σ (.ref l) = (σ, none) := by
+      unfold parseS
+      simp only [hcond, Bool.false_eq_true, ↓reduceIte]
+    rw [e] at h
+    cases h
+
+theorem rootObj_under : ∀ s, rootObj s = true → ∃ m f k, underDflt s = .obj m f k := by
+  intro s
+  induction s with
+  | obj m f k _ => intro _; exact ⟨m, f, k, rfl⟩
+  | dflt d t ih => intro h; exact ih h
+  | any => intro h; cases h
+  | str ss => intro h; cases h
+  | lit rm ms => intro h; cases h
+  | slice t _ => intro h; cases h
+  | record t _ => intro h; cases h
+  | union a b _ _ => intro h; cases h
+
+theorem specKeeps_under (h : GHeap) (v : GVal) : ∀ s, specKeeps (underDflt s) h v = specKeeps s h v := by
+  intro s
+  induction s with
+  | dflt d t ih => simp only [underDflt, specKeeps]; exact ih
+  | any => rfl
+  | str ss => rfl
+  | lit rm ms => rfl
+  | obj m f k _ => rfl
+  | slice t _ => rfl
+  | record t _ => rfl
+  | union a b _ _ => rfl
+
+/-- **ptr_same_pointer_full — the clause, full strength, for the code as it is (/repo 3302475)**: a pointer passed to a
+    pointer-typed, optional or nilable schema of the language — ANY root, objects included — that accepts it, where the
+    documented answer looks like what the pointer refers to (`wantSame = some true`: written from schema and pointee alone),
+    comes back as the same pointer. No hypothesis about the model's answer. -/
+theorem ptr_same_pointer_full (ps : PSchema) (σ : GStore) (p : Loc) (v : GVal) (n : Nat) (hn : n ≤ σ.next)
+    (ho : OwnedS n σ.heap ps.s) (hp : readG σ.heap p = [(0, v)]) (hv : PointeeOK σ v)
+    (hacc : (parsePtrP ps σ p).2.isSome = true) (hw : wantSame ps σ p = some true) :
+    (parsePtrP ps σ p).2 = some (.ref p) := by
+  by_cases hr : rootObj ps.s = true
+  · have hk : ps.kind.ptrTyped = true := by
+      unfold wantSame at hw
+      split at hw
+      · assumption
+      · cases hw
+    have hsk : specKeeps ps.s σ.heap v = true := by
+      unfold wantSame at hw
+      simp only [hk, ↓reduceIte, hp, Option.some.injEq] at hw
+      exact hw
+    obtain ⟨mode, fields, kids, hu⟩ := rootObj_under ps.s hr
+    have ho' := ownedS_underDflt n σ.heap ps.s ho
+    by_cases ht : takesPtr ps.s = true
+    · unfold parsePtrP at hacc ⊢
+      simp only [ht, hk, ↓reduceIte] at hacc ⊢
+      rw [hu] at hacc ho' ⊢
+      cases hq : (parseS (.obj mode fields kids) σ v).2 with
+      | none =>
+        unfold parsePtrS at hacc
+        rw [hp] at hacc
+        simp only [hq] at hacc
+        cases hacc
+      | some w =>
+        cases v with
+        | ref l =>
+          have hsk' : specKeeps (.obj mode fields kids) σ.heap (.ref l) = true := by
+            rw [← hu, specKeeps_under]; exact hsk
+          have hkeys : ∀ q ∈ readG σ.heap l, mode = .strip → fields.contains q.1 = true := by
+            intro q hq' hm
+            subst hm
+            simp only [specKeeps, List.all_eq_true] at hsk'
+            exact hsk' q hq'
+          exact own_ptr_same_entries _ σ p (.ref l) w hp hq
+            (obj_same_entries mode fields kids σ l w n hn ho' hv hkeys hq)
+        | scalar k => unfold parseS at hq; cases hq
+        | nil => unfold parseS at hq; cases hq
+        | agg fs => exact absurd rfl (hv.1 fs)
+    · unfold parsePtrP at hacc
+      simp only [ht] at hacc
+      cases hacc
+  · exact ptr_same_pointer_nonobj ps (by simpa using hr) σ p v hp hv.1 hacc hw
+
 /-- cell 1 = the caller's map `{9: 7}` (nothing the schema does not know), cell 2 = the caller's variable holding it -/
 def σq : GStore :=
   { heap := gupd (gupd (fun _ => none) 1 [(9, .scalar 7)]) 2 [(0, .ref 1)], next := 3 }
 
-/-- **Witness (the code as it is)**: `ObjectPtr({9: any}).Parse(&m)`, `m = {9: 7}` — nothing to strip, the answer looks exactly
-    like `m`, the clause demands the caller's pointer — and the answer is a pointer of its own (cell 4) to a new map (cell 3). -/
-theorem ptr_same_pointer_obj_witness : ¬ ptr_same_pointer_full := by
-  intro h
-  have h1 := h ⟨.pointer, .obj .strip [9] (fun _ => .any)⟩ σq 2 (.ref 1) rfl (by intro fs hh; cases hh) (by decide) (by decide)
-  have h2 : isRef (parsePtrP ⟨.pointer, .obj .strip [9] (fun _ => .any)⟩ σq 2).2 4 = true := by decide
-  rw [h1] at h2
-  exact absurd h2 (by decide)
+/-- **Witness (legacy: the code between e584c0e and 3302475, `parsePtrS0`)**: `ObjectPtr({9: any}).Parse(&m)`, `m = {9: 7}` —
+    nothing to strip, the answer looks exactly like `m`, the clause demands the caller's pointer — and the answer was a pointer of
+    its own (cell 4) to a new map (cell 3). The code as it is answers with the caller's pointer (cell 2). -/
+theorem legacy_objptr_own_pointer :
+    isRef (parsePtrS0 (.obj .strip [9] (fun _ => .any)) σq 2).2 4 = true ∧
+    wantSame ⟨.pointer, .obj .strip [9] (fun _ => .any)⟩ σq 2 = some true ∧
+    isRef (parsePtrP ⟨.pointer, .obj .strip [9] (fun _ => .any)⟩ σq 2).2 2 = true := by decide
 
-/-- the same for the optional and the nilable variant, strip / loose / strict — and the slice, record, string and any roots
-    answer with the caller's pointer (hypotheses of `ptr_same_pointer_partial` met by realistic values) -/
+/-- the hypotheses of `ptr_same_pointer_full` are met by realistic values: optional / nilable / pointer-typed objects in every
+    mode, records, defaults, any — all answer with the caller's pointer; a value-typed record answers the value; a union root
+    is refused -/
 example :
-    isRef (parsePtrP ⟨.optional, .obj .loose [9] (fun _ => .any)⟩ σq 2).2 4 = true ∧
-    isRef (parsePtrP ⟨.nilable, .obj .strict [9] (fun _ => .any)⟩ σq 2).2 4 = true ∧
+    isRef (parsePtrP ⟨.optional, .obj .loose [9] (fun _ => .any)⟩ σq 2).2 2 = true ∧
+    isRef (parsePtrP ⟨.nilable, .obj .strict [9] (fun _ => .any)⟩ σq 2).2 2 = true ∧
     isRef (parsePtrP ⟨.optional, .record (.str [7])⟩ σq 2).2 2 = true ∧
     isRef (parsePtrP ⟨.nilable, .dflt (.scalar 1) (.record .any)⟩ σq 2).2 2 = true ∧
     isRef (parsePtrP ⟨.pointer, .any⟩ σq 2).2 2 = true ∧
     isRef (parsePtrP ⟨.value, .any⟩ σq 2).2 2 = true ∧
     isRef (parsePtrP ⟨.value, .record .any⟩ σq 2).2 1 = true ∧
     (parsePtrP ⟨.pointer, .union .any .any⟩ σq 2).2.isSome = false ∧
-    wantSame ⟨.optional, .record (.str [7])⟩ σq 2 = some true ∧ rootObj (.record (.str [7])) = false := by decide
+    wantSame ⟨.optional, .obj .loose [9] (fun _ => .any)⟩ σq 2 = some true := by decide
+
+example : PointeeOK σq (.ref 1) := by
+  refine ⟨(fun fs h => by cases h), ?_⟩
+  intro l hl
+  cases hl
+  refine ⟨by decide, by decide, ?_⟩
+  intro q hq fs hh
+  have hq' : q ∈ [(9, GVal.scalar 7)] := hq
+  simp only [List.mem_cons, List.mem_nil_iff, or_false] at hq'
+  subst hq'
+  cases hh
 
 /-- the pass over a container's entries never lowers the allocation mark -/
 theorem fold_next (n : Nat) (σ : GStore) (step : GStore → Nat × GVal → StepRes)
@@ -274,29 +481,6 @@ theorem obj_builds_new : ∀ (s : GSchema), rootObj s = true → ∀ (σ : GStor
           exact ⟨_, h.symm, e⟩
       · cases h
     all_goals cases h
-
-/-- **ptrP_obj_own_pointer**: a pointer-typed / optional / nilable object schema answers an accepted pointee with a pointer
-    allocated by the call — never the caller's. -/
-theorem ptrP_obj_own_pointer (ps : PSchema) (hk : ps.kind.ptrTyped = true) (hr : rootObj ps.s = true) (ht : takesPtr ps.s = true)
-    (σ : GStore) (p l : Loc) (n : Nat) (hn : n ≤ σ.next) (ho : OwnedS n σ.heap ps.s)
-    (hp : readG σ.heap p = [(0, .ref l)]) (hl : l < σ.next) (hacc : (parsePtrP ps σ p).2.isSome = true) :
-    ∃ q, (parsePtrP ps σ p).2 = some (.ref q) ∧ σ.next ≤ q := by
-  unfold parsePtrP at hacc ⊢
-  simp only [ht, hk, ↓reduceIte] at hacc ⊢
-  cases hq : (parseS (underDflt ps.s) σ (.ref l)).2 with
-  | none =>
-    unfold parsePtrS at hacc
-    rw [hp] at hacc
-    simp only [hq] at hacc
-    cases hacc
-  | some w =>
-    obtain ⟨x, rfl, hx⟩ := obj_builds_new ps.s hr σ (.ref l) w n hn (ownedS_underDflt n σ.heap ps.s ho) hq
-    have hd : sameV gdepth (.ref x) (.ref l) = false := by
-      have : x ≠ l := Nat.ne_of_gt (Nat.lt_of_lt_of_le hl hx)
-      simp [gdepth, sameV, this]
-    have := own_ptr_own_pointer _ σ p (.ref l) (.ref x) hp hq hd
-    refine ⟨_, this.1, ?_⟩
-    exact (own_parse_ext (underDflt ps.s) σ (.ref l) n hn (ownedS_underDflt n σ.heap ps.s ho)).1
 
 /-- **ptr_clauses_exclusive**: whatever a Parse that left the input graph unchanged did, the caller's pointer shows afterwards
     what it showed before. So where the documented answer does not look like the pointee (`wantSame = some false`), "the same
